@@ -577,7 +577,7 @@ def run(chk, tier):
         (r'TracerState::(fail_probe|reissue_probe)$', 'BoundsCheck', 'index', 'index of the probe just issued (see the entry above)'),
         (r'TracerState::probes$', 'slice-index', '', 'buffer[..sequence − round_sequence]: at most BUFFER_SIZE sequences per round (C07.R3)'),
         (r'TracerState::advance_round$', 'arith-trait', 'add_assign', 'round counter += 1 per round (usize)'),
-        (r'TracerState::probe_udp_data$', 'Overflow:Add', 'Add usize', 'initial_sequence (u16) + round counter in usize'),
+        (r'within:TracerState::probe_udp_data$', 'Overflow:Add', 'Add usize', 'initial_sequence (u16) + round counter in usize'),
         (r'within:Strategy::send_request$', 'arith-trait', 'sub', 'ttl − max_received_ttl: only probes issued with ttl − 1 of an earlier value of ttl are ever completed, so max_received_ttl < ttl (C03.R4 transition table, C06.R2 ttl effects)'),
         (r'InternalBitFlags::all$', 'BoundsCheck', 'index', 'bitflags!-generated: constant indices into the constant FLAGS table'),
         (r'within:checksum::ipv6_checksum$', 'Overflow:Add', 'Add u32', 'pseudo-header words + length (≤ 1024 on this path) + word sum (< 2^26) cannot reach 2^32'),
